@@ -1,5 +1,6 @@
 import RtenVerif.Driver.Util
 import RtenVerif.Model.Ctc
+import RtenVerif.Model.CtcShadow
 
 /-!
 Line protocol for C39 (all numbers are `Nat`; `w` = `T*L` weights, row-major; the harness
@@ -8,47 +9,23 @@ feeds the implementation `ln(w/D)` as `f32`, `-inf` for `w = 0`):
 * `greedy L T w…`          → `decode_greedy`
 * `beam B N L T w…`        → `decode_beam_nbest(beam_size = B, n_best = N)`
 * `best B L T w…`          → `decode_beam(beam_size = B)`
+* `greedyn L T w…`         → `decode_greedy` where a weight written `n` is NaN (score printed
+  as `nan` when it is NaN; carrier `nanOps`)
 
 Answer: `panic`, or hypotheses joined by `|` (`none` for an empty list), each
 `label@pos,label@pos,…:score` where `score` is `z` when the exact score is 0 (−inf),
 the exact numerator when `Π_t Σ_l w[t][l] ≤ 4096` (small enough for the harness to
 recover it from the `f32` log score by rounding), and `-` otherwise.
 
-The beam model is run over the exact `Nat` weights paired with a hash of the expression
-that produced each value.  Float rounding can only change the outcome of the decoder's
+The beam model is run over `vOps` (`Model/CtcShadow.lean`): the exact `Nat` weights paired
+with a hash of the expression that produced each value; `V.val` is a homomorphism onto the
+`natOps` model (`c39_driver_nbest_eq_nat`, `c39_driver_best_eq_nat`).  Float rounding can only change the outcome of the decoder's
 comparisons when two candidate probabilities are (a) exactly equal but computed by
 different expressions, or (b) closer than a relative 2⁻¹²; in those cases the driver
 answers `skip` (the harness's own oracles still check the implementation's output).
 -/
 namespace RtenVerif.Driver.C39
 open RtenVerif.Driver RtenVerif.Ctc
-
-/-- Exact value with an expression hash (robustness shadow; never printed). -/
-structure V where
-  val : Nat
-  h : UInt64
-
-def mix (tag a b : UInt64) : UInt64 :=
-  let x := (a ^^^ (b * 0x9E3779B97F4A7C15) ^^^ (tag * 0xD6E8FEB86659FD93)) * 0xBF58476D1CE4E5B9
-  (x ^^^ (x >>> 29)) * 0x94D049BB133111EB + 0x2545F4914F6CDD1D
-
-def vZero : V := ⟨0, 0⟩
-def vOne : V := ⟨1, 0x1111⟩
-def leaf (w : Nat) : V := if w = 0 then vZero else ⟨w, mix 7 (UInt64.ofNat w) 3⟩
-
-/-- `log_sum_exp` ignores `-inf` operands exactly; `0. + x = x` exactly. -/
-def vOps : Ops V where
-  zero := vZero
-  one := vOne
-  add a b := if a.val = 0 then b else if b.val = 0 then a else ⟨a.val + b.val, mix 1 a.h b.h⟩
-  mul a b :=
-    if a.val = 0 ∨ b.val = 0 then vZero
-    else if a.h = vOne.h then b else if b.h = vOne.h then a
-    else ⟨a.val * b.val, mix 2 a.h b.h⟩
-  gt a b := decide (b.val < a.val)
-  argGt a b := decide (b.val < a.val)
-  sortGe a b := decide (b.val ≤ a.val)
-  isZero a := a.val == 0
 
 def fragilePair (a b : V) : Bool :=
   if a.val = 0 ∨ b.val = 0 then false
@@ -75,6 +52,10 @@ def chunk (L : Nat) : Nat → List Nat → List (List Nat)
   | 0, _ => []
   | t + 1, ws => ws.take L :: chunk L t (ws.drop L)
 
+def chunkG {γ : Type} (L : Nat) : Nat → List γ → List (List γ)
+  | 0, _ => []
+  | t + 1, ws => ws.take L :: chunkG L t (ws.drop L)
+
 def showSteps (p : List Step) : String :=
   joinWith "," (p.map fun s => s!"{s.label}@{s.pos}")
 
@@ -98,6 +79,21 @@ def handle (line : String) : String :=
       match decodeGreedy natOps L rows with
       | none => "panic"
       | some h => showHyp (isSmall rows) h.steps h.score
+    | _ => "bad-request"
+  | "greedyn" :: rest =>
+    match rest with
+    | l :: t :: ws =>
+      match l.toNat?, t.toNat?, ws.mapM (fun w => if w == "n" then some (none : NN) else w.toNat?.map some) with
+      | some L, some T, some vs =>
+        if vs.length != T * L then "bad-request" else
+        let rows := chunkG L T vs
+        match decodeGreedy nanOps L rows with
+        | none => "panic"
+        | some h =>
+          match h.score with
+          | none => s!"{showSteps h.steps}:nan"
+          | some sc => showHyp (isSmall (rows.map (·.map (·.getD 0)))) h.steps sc
+      | _, _, _ => "bad-request"
     | _ => "bad-request"
   | "beam" :: rest =>
     match rest.mapM String.toNat? with
